@@ -1,9 +1,9 @@
 #!/bin/sh
-# try_neutral.sh <Cnn> [suffix]: (suffix n = first round -> seeded/neutral, m = second round -> seeded/neutral2, p = third round -> seeded/neutral4;
+# try_neutral.sh <Cnn> [suffix]: (suffix n = first round -> seeded/neutral, m = second round -> seeded/neutral2, p = third round -> seeded/neutral4, r = fourth round (numerics / array idioms) -> seeded/neutral5;
 # seeded/neutral3 holds the repaired twins of the round-4 seeds, built by mktwin.py)
 # try_neutral.sh <Cnn>: confirm a sub-agent's behaviour-preserving refactoring in /tmp/wt_<Cnn>n (tests pass, equivalence
 # script says EQUIVALENT), then run every check against it: any exit != 0 is a false alarm (1) or an unreadable idiom (2).
-ID="$1"; SFX="${2:-n}"; WT="/tmp/wt_${ID}${SFX}"; if [ "$SFX" = "n" ]; then OUT="/verif/seeded/neutral/${ID}"; elif [ "$SFX" = "p" ]; then OUT="/verif/seeded/neutral4/${ID}"; else OUT="/verif/seeded/neutral2/${ID}"; fi
+ID="$1"; SFX="${2:-n}"; WT="/tmp/wt_${ID}${SFX}"; if [ "$SFX" = "n" ]; then OUT="/verif/seeded/neutral/${ID}"; elif [ "$SFX" = "p" ]; then OUT="/verif/seeded/neutral4/${ID}"; elif [ "$SFX" = "r" ]; then OUT="/verif/seeded/neutral5/${ID}"; else OUT="/verif/seeded/neutral2/${ID}"; fi
 PY=/venv/bin/python
 [ -f "$WT/patch.diff" ] || { echo "no patch.diff in $WT"; exit 2; }
 mkdir -p "$OUT"
